@@ -106,6 +106,24 @@ AUTH_ALPHABET = [
 ]
 
 
+# a schema marked @nonIntrospectable: the built-in schema hook switches introspection off *while a request executes*; what a request is
+# answered must not depend on whether that already happened (i.e. on earlier requests) nor on when its document was parsed
+NI_SDL = """
+type Query { hello: String }
+schema @nonIntrospectable { query: Query }
+"""
+NI_ALPHABET = [
+    ("valid", "{ hello }", {}),
+    ("type-introspection", '{ __type(name: "Query") { name } }', {}),
+    ("schema-introspection", "{ hello __schema { queryType { name } } }", {}),
+    ("typename", "{ hello __typename }", {}),
+    ("invalid", "{ hello unknownField }", {}),
+    ("type-introspection-bytes", b'{ __type(name: "Query") { name } }', {}),
+    ("syntax", "{ hello ", {}),
+]
+FAMILIES = {"auth": (AUTH_SDL, AUTH_ALPHABET), "ni": (NI_SDL, NI_ALPHABET)}
+
+
 class AuthDirective:
     async def on_schema_execution(self, directive_args, next_directive, schema, document, parsing_errors, operation_name, context,
                                   variables, initial_value):
@@ -121,17 +139,18 @@ async def prefixing_coercer(exception, error):
     return error
 
 
-def make_auth_engine(config):
+def make_auth_engine(config, family="auth"):
     from tartiflette import Directive, Resolver, create_engine
     name = harness.fresh_name("c16a")
-    Directive("auth", schema_name=name)(AuthDirective())
+    if family == "auth":
+        Directive("auth", schema_name=name)(AuthDirective())
 
     @Resolver("Query.hello", schema_name=name)
     async def hello(parent, args, ctx, info):
         return "world"
 
     kw = {"query_cache_decorator": None} if config == "disabled" else {"query_cache_decorator": lru_cache(maxsize=1)} if config == "lru1" else {}
-    return harness.run(create_engine(AUTH_SDL, schema_name=name, error_coercer=prefixing_coercer, **kw)), name
+    return harness.run(create_engine(FAMILIES[family][0], schema_name=name, error_coercer=prefixing_coercer, **kw)), name
 
 
 def ask_auth(engine, letter):
@@ -141,38 +160,41 @@ def ask_auth(engine, letter):
         return "RAISED " + repr(e)
 
 
-def run_auth(tier, first):
+def run_auth(tier, first, family="auth"):
+    alphabet = FAMILIES[family][1]
     out = {"counts": {"histories": 0, "requests": 0, "nontrivial": 0}, "tables": {}, "sets": {}, "samples": [], "violations": [],
            "machinery": []}
     ref = {}
-    for letter in AUTH_ALPHABET:
-        eng, name = make_auth_engine("disabled")
+    for letter in alphabet:
+        eng, name = make_auth_engine("disabled", family)
         ref[letter[0]] = ask_auth(eng, letter)
         drop(name)
-    if "world" not in ref["valid-token"] or "Unauthorized" not in ref["valid-no-token"]:
+    if family == "ni" and ("disabled" not in ref["type-introspection"] or "world" not in ref["valid"]):
+        out["machinery"].append("the non-introspectable engine does not behave as intended: %r" % (ref,))
+    if family == "auth" and ("world" not in ref["valid-token"] or "Unauthorized" not in ref["valid-no-token"]):
         out["machinery"].append("the auth engine does not behave as intended: %r" % (ref,))
     depth = 3 if tier == "quick" else 4
-    for hist in itertools.product(range(len(AUTH_ALPHABET)), repeat=depth):
+    for hist in itertools.product(range(len(alphabet)), repeat=depth):
         if hist[0] != first:
             continue
         for config in ("default", "lru1", "disabled"):
-            eng, name = make_auth_engine(config)
+            eng, name = make_auth_engine(config, family)
             for pos, li in enumerate(hist):
-                letter = AUTH_ALPHABET[li]
+                letter = alphabet[li]
                 got = ask_auth(eng, letter)
                 out["counts"]["requests"] += 1
                 if got != ref[letter[0]]:
-                    labels = [AUTH_ALPHABET[i][0] for i in hist[:pos + 1]]
+                    labels = [alphabet[i][0] for i in hist[:pos + 1]]
                     out["violations"].append({
-                        "signature": "response-changed-by-history|schema-hook-refusals|%s" % letter[0],
-                        "summary": "cache=%s history=%r (schema-level @auth hook): response #%d is %s but a fresh engine answers %s" % (
+                        "signature": "response-changed-by-history|%s|%s" % ("schema-hook-refusals" if family == "auth" else "non-introspectable-schema", letter[0]),
+                        "summary": "cache=%s history=%r (schema-level hook): response #%d is %s but a fresh engine answers %s" % (
                             config, labels, pos, got[:500], ref[letter[0]][:500]),
                         "replay": {"auth_history": list(hist[:pos + 1]), "config": config}})
                     break
             out["counts"]["histories"] += 1
             drop(name)
     if first == 0:
-        out["samples"].append({"schema_hook_alphabet": [l[0] for l in AUTH_ALPHABET], "length": depth})
+        out["samples"].append({"family": family, "schema_hook_alphabet": [l[0] for l in alphabet], "length": depth})
     return out
 
 
@@ -370,14 +392,14 @@ def reference():
 
 def shards(tier, seed):
     n = len(ALPHABET)
-    return [(a, b, tier) for a in range(n) for b in range(n)] + [("shared", tier)] + [("variables", tier, k) for k in range(len(VARS_ALPHABET))] + [("auth", tier, k) for k in range(len(AUTH_ALPHABET))] + [("mutating", tier, k) for k in range(len(MUT_ALPHABET))]
+    return [(a, b, tier) for a in range(n) for b in range(n)] + [("shared", tier)] + [("variables", tier, k) for k in range(len(VARS_ALPHABET))] + [("auth", tier, k) for k in range(len(AUTH_ALPHABET))] + [("ni", tier, k) for k in range(len(NI_ALPHABET))] + [("mutating", tier, k) for k in range(len(MUT_ALPHABET))]
 
 
 def run_shard(item):
     if item[0] == "shared":
         return run_shared(item[1])
-    if item[0] == "auth":
-        return run_auth(item[1], item[2])
+    if item[0] in ("auth", "ni"):
+        return run_auth(item[1], item[2], item[0])
     if item[0] == "variables":
         return run_shared_variables(item[1], item[2])
     if item[0] == "mutating":
